@@ -1,4 +1,218 @@
-import EE.Model.Program
+import EE.Props.C09
+import EE.Props.C17
+import EE.Props.C07
+/-! # C03 — built-in operators and functions compute the documented values
+
+The built-in handlers are characterised operator group by operator group against the mathematical
+reading of their operands: numbers by the rational they denote (`d.num / 10^d.scale`, statements
+cross-multiplied), integral operands of bit operators by the integer they denote (whatever the
+scale), structural equality with numeric leaves, first-decisive folds for `AND`/`OR`. The model
+computes these the way the code does (typed accessor, checked operation; integer operands through
+decimal text and an `i64` parse), so the statements are not restatements of the definitions.
+Evaluation of whole trees is covered by `EE.Props.C07.exec_sound` (big-step semantics) with
+these handlers plugged in. -/
 namespace EE.Props.C03
-theorem placeholder : True := trivial
+open EE
+
+/-- `d` denotes the integer `n` (whatever scale it is stored with). -/
+def denotesInt (d : Dec) (n : Int) : Prop := d.num = n * 10 ^ d.scale
+def inI64 (n : Int) : Prop := -9223372036854775808 ≤ n ∧ n ≤ 9223372036854775807
+
+/-! ## Arithmetic: exact decimal operations on numbers, an error on anything else -/
+theorem arith (op : Name) (h : op ∈ decNames) (a b : Dec) :
+    builtinInfix op (.num a) (.num b) = (decOp op a b).bind fun d => .ok (.num d) := by
+  simp only [decNames, List.mem_cons, List.mem_nil_iff, or_false] at h
+  rcases h with rfl | rfl | rfl | rfl | rfl <;> rfl
+
+theorem arith_ops (a b : Dec) :
+    decOp ['+'] a b = Dec.add a b ∧ decOp ['-'] a b = Dec.sub a b ∧ decOp ['*'] a b = Dec.mul a b ∧
+    decOp ['/'] a b = Dec.div a b ∧ decOp ['%'] a b = Dec.rem a b := ⟨rfl, rfl, rfl, rfl, rfl⟩
+-- exactness of add/sub/mul/rem: EE.Props.C09.add_exact … rem_exact, fit_complete
+
+/-- Exact quotient: when `/` returns a value `q`, then `q * b = a` as rationals. -/
+theorem div_exact (a b q : Dec) (h : Dec.div a b = .ok q) :
+    q.num * (b.num * 10 ^ a.scale) * 10 ^ maxScale = a.num * 10 ^ (b.scale + maxScale) * 10 ^ q.scale := by
+  unfold Dec.div at h
+  split at h
+  · cases h
+  · simp only [] at h
+    split at h
+    · rename_i hz hdiv
+      have hf := (EE.Props.C09.fit_exact _ _ q h).1
+      have hd : (a.num * ((10 ^ (b.scale + maxScale) : Nat) : Int)) / (b.num * ((10 ^ a.scale : Nat) : Int)) * (b.num * ((10 ^ a.scale : Nat) : Int))
+          = a.num * ((10 ^ (b.scale + maxScale) : Nat) : Int) := Int.ediv_mul_cancel (Int.dvd_of_emod_eq_zero hdiv)
+      simp only [Int.natCast_pow, Int.cast_ofNat_Int] at hd hf
+      calc q.num * (b.num * 10 ^ a.scale) * 10 ^ maxScale
+          = (q.num * 10 ^ maxScale) * (b.num * 10 ^ a.scale) := by
+            simp only [Int.mul_assoc, Int.mul_comm, Int.mul_left_comm]
+        _ = (a.num * 10 ^ (b.scale + maxScale) / (b.num * 10 ^ a.scale) * 10 ^ q.scale) * (b.num * 10 ^ a.scale) := by rw [hf]
+        _ = (a.num * 10 ^ (b.scale + maxScale) / (b.num * 10 ^ a.scale) * (b.num * 10 ^ a.scale)) * 10 ^ q.scale := by
+            simp only [Int.mul_assoc, Int.mul_comm, Int.mul_left_comm]
+        _ = _ := by rw [hd]
+    · split at h <;> cases h
+
+/-! ## Ordering and equality -/
+theorem ordering (a b : Dec) :
+    builtinInfix ['<'] (.num a) (.num b) = .ok (.bool (Dec.lt a b)) ∧
+    builtinInfix ['<', '='] (.num a) (.num b) = .ok (.bool (Dec.le a b)) ∧
+    builtinInfix ['>'] (.num a) (.num b) = .ok (.bool (Dec.lt b a)) ∧
+    builtinInfix ['>', '='] (.num a) (.num b) = .ok (.bool (Dec.le b a)) := ⟨rfl, rfl, rfl, rfl⟩
+-- Dec.lt / Dec.le decide the order of the denoted rationals: EE.Props.C09.lt_by_value, le_by_value
+
+theorem equality (v w : Value) :
+    builtinInfix ['=', '='] v w = .ok (.bool (Value.beq v w)) ∧ builtinInfix ['!', '='] v w = .ok (.bool (!Value.beq v w)) := ⟨rfl, rfl⟩
+
+/-- Structural equality: same variant and equal payloads, numbers by value, lists and maps
+element-wise in order; values of different variants are never equal. -/
+theorem beq_structural :
+    (∀ a b : Dec, Value.beq (.num a) (.num b) = Dec.beq a b) ∧
+    (∀ a b : Text, Value.beq (.str a) (.str b) = (a == b)) ∧
+    (∀ a b : Bool, Value.beq (.bool a) (.bool b) = (a == b)) ∧
+    Value.beq .none .none = true ∧
+    (∀ (x y : Value) (xs ys : List Value), Value.beq (.list (x :: xs)) (.list (y :: ys)) = (Value.beq x y && Value.beq (.list xs) (.list ys))) ∧
+    Value.beq (.list []) (.list []) = true ∧
+    (∀ (d : Dec) (s : Text), Value.beq (.num d) (.str s) = false) ∧
+    (∀ (d : Dec) (b : Bool), Value.beq (.num d) (.bool b) = false) ∧
+    (∀ (d : Dec), Value.beq (.num d) .none = false ∧ Value.beq .none (.num d) = false) := by
+  refine ⟨fun _ _ => rfl, fun _ _ => rfl, fun _ _ => rfl, rfl, fun _ _ _ _ => ?_, rfl, fun _ _ => rfl, fun _ _ => rfl, fun _ => ⟨rfl, rfl⟩⟩
+  simp [Value.beq, Value.beqList]
+
+mutual
+theorem beq_refl : ∀ v : Value, Value.beq v v = true
+  | .str s => by simp [Value.beq]
+  | .num d => by simp [Value.beq, Dec.beq, Dec.cmpKey, Dec.align]
+  | .bool b => by simp [Value.beq]
+  | .none => rfl
+  | .list vs => by simp [Value.beq, beqList_refl vs]
+  | .map kvs => by simp [Value.beq, beqMap_refl kvs]
+theorem beqList_refl : ∀ vs : List Value, Value.beqList vs vs = true
+  | [] => rfl
+  | v :: vs => by simp [Value.beqList, beq_refl v, beqList_refl vs]
+theorem beqMap_refl : ∀ vs : List (Value × Value), Value.beqMap vs vs = true
+  | [] => rfl
+  | (k, v) :: r => by simp [Value.beqMap, beq_refl k, beq_refl v, beqMap_refl r]
+end
+
+/-! ## Boolean logic -/
+theorem logic (a b : Bool) :
+    builtinInfix ['&', '&'] (.bool a) (.bool b) = .ok (.bool (a && b)) ∧
+    builtinInfix ['|', '|'] (.bool a) (.bool b) = .ok (.bool (a || b)) ∧
+    builtinPrefix ['!'] (.bool a) = .ok (.bool (!a)) ∧ builtinPrefix ['n', 'o', 't'] (.bool a) = .ok (.bool (!a)) :=
+  ⟨rfl, rfl, rfl, rfl⟩
+
+/-- Both operands of `&&` / `||` are type-checked: no short-circuit, never a coerced value. -/
+theorem logic_illtyped (v w : Value) (h : (∀ b, v ≠ .bool b) ∨ (∀ b, w ≠ .bool b)) :
+    (builtinInfix ['&', '&'] v w).isErr = true ∧ (builtinInfix ['|', '|'] v w).isErr = true := by
+  rcases h with h | h
+  · cases v <;> first | exact absurd rfl (h _) | (constructor <;> rfl)
+  · cases v <;> cases w <;> first | exact absurd rfl (h _) | (constructor <;> rfl)
+
+/-! ## Bit operators: 64-bit two's complement on the integers the operands denote -/
+theorem integer_operand (d : Dec) (n : Int) (h : denotesInt d n) (hr : inI64 n) : (Value.num d).integer = .ok n :=
+  (EE.Props.C17.integer_iff d n).mpr ⟨h, hr.1, hr.2⟩
+
+theorem bitops (a b : Dec) (x y : Int) (ha : denotesInt a x) (hx : inI64 x) (hb : denotesInt b y) (hy : inI64 y) :
+    builtinInfix ['|'] (.num a) (.num b) = .ok (Value.ofInt (bv x ||| bv y).toInt) ∧
+    builtinInfix ['&'] (.num a) (.num b) = .ok (Value.ofInt (bv x &&& bv y).toInt) ∧
+    builtinInfix ['^'] (.num a) (.num b) = .ok (Value.ofInt (bv x ^^^ bv y).toInt) ∧
+    builtinInfix ['<', '<'] (.num a) (.num b) =
+      (if 0 ≤ y ∧ y ≤ 63 then .ok (Value.ofInt (bv x <<< y.toNat).toInt) else .err .invalidShiftCount) ∧
+    builtinInfix ['>', '>'] (.num a) (.num b) =
+      (if 0 ≤ y ∧ y ≤ 63 then .ok (Value.ofInt ((bv x).sshiftRight y.toNat).toInt) else .err .invalidShiftCount) := by
+  have h1 := integer_operand a x ha hx
+  have h2 := integer_operand b y hb hy
+  have e : ∀ op, intBin op (.num a) (.num b) = (intOp op x y).bind fun n => .ok (Value.ofInt n) := by
+    intro op; simp only [intBin, h1, h2, Res.bind]
+  refine ⟨?_, ?_, ?_, ?_, ?_⟩
+  · show intBin ['|'] _ _ = _; rw [e]; rfl
+  · show intBin ['&'] _ _ = _; rw [e]; rfl
+  · show intBin ['^'] _ _ = _; rw [e]; rfl
+  · show intBin ['<', '<'] _ _ = _; rw [e]
+    by_cases hc : 0 ≤ y ∧ y ≤ 63 <;> simp [intOp, intOpClass, hc, Res.bind]
+  · show intBin ['>', '>'] _ _ = _; rw [e]
+    by_cases hc : 0 ≤ y ∧ y ≤ 63 <;> simp [intOp, intOpClass, hc, Res.bind]
+
+/-- A non-integral or out-of-range operand of a bit operator is an error, never truncated. -/
+theorem bitops_reject (a b : Dec) (h : ¬ ∃ n, denotesInt a n ∧ inI64 n) :
+    (builtinInfix ['|'] (.num a) (.num b)).isErr = true ∧ (builtinInfix ['<', '<'] (.num a) (.num b)).isErr = true := by
+  have : (Value.num a).integer = .err .invalidInteger :=
+    EE.Props.C17.integer_rejects a (fun ⟨n, h1, h2, h3⟩ => h ⟨n, h1, h2, h3⟩)
+  constructor <;> simp [builtinInfix, infixClass, decNames, intNames, cmpNames, intBin, this, Res.bind, Res.isErr]
+
+/-- `>>` is the arithmetic shift: it keeps the sign. -/
+example : builtinInfix ['>', '>'] (.num ⟨true, 8, 0⟩) (.num ⟨false, 1, 0⟩) = .ok (.num ⟨true, 4, 0⟩) := by rfl
+example : builtinInfix ['>', '>'] (.num ⟨true, 1, 0⟩) (.num ⟨false, 63, 0⟩) = .ok (.num ⟨true, 1, 0⟩) := by rfl
+
+/-! ## Strings and membership -/
+theorem strings (a b : Text) :
+    builtinInfix ['b', 'e', 'g', 'i', 'n', 'W', 'i', 't', 'h'] (.str a) (.str b) = .ok (.bool (b.isPrefixOf a)) ∧
+    builtinInfix ['e', 'n', 'd', 'W', 'i', 't', 'h'] (.str a) (.str b) = .ok (.bool (b.isSuffixOf a)) := ⟨rfl, rfl⟩
+
+/-- `x in l`: true iff some element of the list equals `x` (structurally). -/
+theorem membership (x : Value) (l : List Value) :
+    builtinInfix ['i', 'n'] x (.list l) = .ok (.bool (l.any fun it => Value.beq it x)) := rfl
+
+/-! ## AND / OR: first decisive element; min / max / sum / mul -/
+theorem all_true (vs : List Value) (h : ∀ v ∈ vs, v = .bool true) : allBool vs = .ok true := by
+  induction vs with
+  | nil => rfl
+  | cons v vs ih =>
+    have := h v (by simp)
+    subst this
+    simp [allBool, Value.bool', ih (fun v hv => h v (by simp [hv]))]
+
+/-- `AND` is false as soon as a false is reached, whatever follows it (even a non-boolean). -/
+theorem and_first_false (pre post : List Value) (h : ∀ v ∈ pre, v = .bool true) :
+    allBool (pre ++ .bool false :: post) = .ok false := by
+  induction pre with
+  | nil => simp [allBool, Value.bool']
+  | cons v vs ih =>
+    have := h v (by simp)
+    subst this
+    simp [allBool, Value.bool', ih (fun v hv => h v (by simp [hv]))]
+
+/-- … and an error if a non-boolean is reached first. -/
+theorem and_nonbool (pre post : List Value) (x : Value) (h : ∀ v ∈ pre, v = .bool true) (hx : ∀ b, x ≠ .bool b) :
+    allBool (pre ++ x :: post) = .err .shouldBeBool := by
+  induction pre with
+  | nil => cases x <;> first | exact absurd rfl (hx _) | simp [allBool, Value.bool']
+  | cons v vs ih =>
+    have := h v (by simp)
+    subst this
+    simp [allBool, Value.bool', ih (fun v hv => h v (by simp [hv]))]
+
+theorem or_first_true (pre post : List Value) (h : ∀ v ∈ pre, v = .bool false) :
+    anyBool (pre ++ .bool true :: post) = .ok true := by
+  induction pre with
+  | nil => simp [anyBool, Value.bool']
+  | cons v vs ih =>
+    have := h v (by simp)
+    subst this
+    simp [anyBool, Value.bool', ih (fun v hv => h v (by simp [hv]))]
+
+theorem aggregates_empty : allBool [] = .ok true ∧ anyBool [] = .ok false := ⟨rfl, rfl⟩
+
+/-! ## Wrong operand type: an error, never a coerced value -/
+theorem illtyped_arith (op : Name) (h : op ∈ decNames) (v w : Value) (hv : (∀ d, v ≠ .num d) ∨ (∀ d, w ≠ .num d)) :
+    (builtinInfix op v w).isErr = true := by
+  simp only [decNames, List.mem_cons, List.mem_nil_iff, or_false] at h
+  rcases hv with hv | hv
+  · rcases h with rfl | rfl | rfl | rfl | rfl <;> cases v <;> first | exact absurd rfl (hv _) | rfl
+  · rcases h with rfl | rfl | rfl | rfl | rfl <;> cases v <;> cases w <;>
+      first | exact absurd rfl (hv _) | rfl | simp [builtinInfix, infixClass, decNames, intNames, cmpNames, decBin, Value.decimal, Res.bind, Res.isErr]
+
+theorem illtyped_membership (x v : Value) (hv : ∀ l, v ≠ .list l) : (builtinInfix ['i', 'n'] x v).isErr = true := by
+  cases v <;> first | exact absurd rfl (hv _) | rfl
+
+theorem illtyped_strings (v w : Value) (hv : (∀ s, v ≠ .str s) ∨ (∀ s, w ≠ .str s)) :
+    (builtinInfix ['b', 'e', 'g', 'i', 'n', 'W', 'i', 't', 'h'] v w).isErr = true := by
+  rcases hv with hv | hv
+  · cases v <;> first | exact absurd rfl (hv _) | rfl
+  · cases v <;> cases w <;> first | exact absurd rfl (hv _) | rfl
+
+/-- Conditional selection, list and map construction and whole-tree evaluation: the big-step
+semantics, which the evaluator is proved to satisfy. -/
+theorem eval_spec {σ : Type} (inv : Inv σ) (hinv : EE.Props.C07.HandlersClean inv) (t : AST) (w : World σ) (hw : w.Clean) :
+    EE.Spec.Eval inv t w (exec inv t w) := EE.Props.C07.exec_sound inv hinv t w hw
+
 end EE.Props.C03
